@@ -78,6 +78,15 @@ func distinctChain() *sim.Chain {
 				topics, data := ev.LogOf(vals)
 				tx.Logs = append(tx.Logs, sim.Log{Addr: addr(), Topics: topics, Data: data, Event: ev, Vals: vals, Kind: "match"})
 			}
+			{
+				// one log of an event whose only inputs are the members of a struct
+				wv := wrappedEvent()
+				tup := wv.Inputs[0]
+				w := func(x []byte) []byte { y := make([]byte, 32); copy(y[32-len(x):], x); return y }
+				vals := []refmodel.Value{{T: tup, Elems: []refmodel.Value{{T: tup.Fields[0], Word: w(addr())}, {T: tup.Fields[1], Word: w(nb().Bytes())}}}}
+				topics, data := wv.LogOf(vals)
+				tx.Logs = append(tx.Logs, sim.Log{Addr: addr(), Topics: topics, Data: data, Event: wv, Vals: vals, Kind: "match"})
+			}
 			for j := 0; j < 2; j++ {
 				tx.Traces = append(tx.Traces, sim.Trace{From: addr(), To: addr(), Value: nb(), CallType: []string{"call", "delegatecall", "staticcall", "callcode"}[(b+i+j)%4]})
 			}
@@ -88,12 +97,24 @@ func distinctChain() *sim.Chain {
 	return c
 }
 
+// wrappedEvent: every selected input is a member of a struct input.
+func wrappedEvent() *refmodel.Event {
+	return &refmodel.Event{Name: "Wrapped", Inputs: []*refmodel.Type{{Kind: refmodel.KTuple, Name: "t", Fields: []*refmodel.Type{
+		{Kind: refmodel.KAddress, Name: "who", Column: "f"}, {Kind: refmodel.KUint, Bits: 256, Name: "amount", Column: "v"}}}}}
+}
+
+// c14Struct: the event context uses the struct-only event instead of Transfer.
+var c14Struct bool
+
 // c14Decl builds the declaration for a field set in a context.
 func c14Decl(fields []string, withEvent bool) *refmodel.Decl {
 	d := &refmodel.Decl{Name: "ig", Enabled: true, Table: "tb", Filters: map[*refmodel.Type]*refmodel.Filter{}, Sources: []refmodel.SourceRef{{Name: "src1", Start: 1}}}
 	if withEvent {
 		d.Event = xferEvent()
 		d.Event.Inputs[1].Column = "" // one indexed selected, one unselected, one data input selected
+		if c14Struct {
+			d.Event = wrappedEvent()
+		}
 		d.Columns = append(d.Columns, refmodel.Column{Name: "f", Type: "bytea"}, refmodel.Column{Name: "v", Type: "numeric"})
 	}
 	for _, f := range fields {
@@ -115,17 +136,22 @@ var c14Identity = map[string]bool{"ig_name": true, "src_name": true, "block_num"
 
 // c14Run indexes the distinct chain with the declaration and compares.
 func c14Run(fields []string, withEvent bool) string {
-	for _, rename := range []bool{false, true} {
-		c14Rename = rename
+	defer func() { c14Rename, c14Struct = false, false }()
+	for _, variant := range []struct{ rename, structEv bool }{{false, false}, {true, false}, {false, true}} {
+		if variant.structEv && !withEvent {
+			continue
+		}
+		c14Rename, c14Struct = variant.rename, variant.structEv
 		if v := c14RunOnce(fields, withEvent); v != "" {
-			c14Rename = false
-			if rename {
+			switch {
+			case variant.rename:
 				return "(fields stored under columns named x_<field>) " + v
+			case variant.structEv:
+				return "(event whose selected inputs are all members of a struct) " + v
 			}
 			return v
 		}
 	}
-	c14Rename = false
 	return ""
 }
 
